@@ -536,9 +536,9 @@ def gen_actor_case(rng, name, props, logger=False):
                 ops.append({"op": "kill", "oid": oid, "code": "k%d" % oid})
             elif c < 0.76:
                 rid = ids.next("rid")
-                kind = rng.choice(["plain", "plain", "to", "someto"])
+                kind = rng.choice(["plain", "plain", "to", "someto", "somedo"])
                 op = {"op": "mkret", "rid": rid, "kind": kind}
-                if kind != "plain":
+                if kind in ("to", "someto"):
                     op["aid"] = rng.choice(actors)
                 ops.append(op)
                 rets.append(rid)
@@ -547,7 +547,10 @@ def gen_actor_case(rng, name, props, logger=False):
                 ops.append(rng.choice([{"op": "ret", "rid": rid, "val": rid * 10}, {"op": "retdrop", "rid": rid}]))
             elif c < 0.85:
                 fid = ids.next("fid")
-                ops.append({"op": "mkfwd", "fid": fid, "aid": rng.choice(actors)})
+                if rng.random() < 0.25:
+                    ops.append({"op": "mkfwd", "fid": fid, "kind": "do"})
+                else:
+                    ops.append({"op": "mkfwd", "fid": fid, "aid": rng.choice(actors)})
                 fwds.append(fid)
             elif c < 0.90 and fwds:
                 ops.append({"op": "fwd", "fid": rng.choice(fwds), "val": ids.next("item")})
